@@ -164,7 +164,8 @@ Q(n, d)    == <<n, d>>
 EnvVals    == { Q(-5, 2), Q(-1, 1), Q(0, 1), Q(1, 3), Q(2, 1), Q(7, 2) }
 EnvsFull   == { <<a, b>> : a \in EnvVals, b \in EnvVals }
 EnvsSome   == { <<Q(-5, 2), Q(2, 1)>>, <<Q(2, 1), Q(2, 1)>>, <<Q(1, 3), Q(-1, 1)>>, <<Q(7, 2), Q(-5, 2)>>, <<Q(0, 1), Q(1, 3)>> }
-EnvsFew    == { <<Q(-5, 2), Q(2, 1)>>, <<Q(7, 2), Q(7, 2)>>, <<Q(1, 3), Q(-1, 1)>> }
+EnvsFew    == { <<Q(-5, 2), Q(2, 1)>>, <<Q(1, 3), Q(-1, 1)>> }
+EnvsIte    == { <<Q(-5, 2), Q(2, 1)>>, <<Q(7, 2), Q(7, 2)>>, <<Q(2, 1), Q(1, 3)>> }     \* x < y, x = y, x > y
 Env0       == <<Q(0, 1), Q(0, 1)>>
 Envs1      == IF Thorough THEN EnvsFull ELSE EnvsSome         \* depth <= 1
 Envs2      == IF Thorough THEN EnvsSome ELSE EnvsFew          \* deeper trees
@@ -209,12 +210,13 @@ Next == tv.op = "seed" /\
           \E E \in Wrap1(T2) \cup { <<"sub", l2, T2>>, <<"fmod", T2, l2>>, <<"ite", <<"lt", T2, l2>>, T2, l2>> } :
              \E env \in EnvsOf(E, EnvsFew) : tv' = Vec(E, env, 0)
   \/ /\ tv.form = "ite"
-     /\ \/ \E a \in L2 \cup {Y}, b \in L2 \cup {Y, <<"mul", X, Y>>, <<"sqrt", X>>} :
-              LET E == <<"ite", tv.a, a, b>> IN \E env \in EnvsOf(E, Envs1) : tv' = Vec(E, env, 0)
+     /\ \/ \E a \in {X, <<"flt", 5, 1>>}, b \in {Y, <<"rat", -7, 3>>, <<"mul", X, Y>>, <<"sqrt", X>>} :
+              LET E == <<"ite", tv.a, a, b>> IN \E env \in EnvsOf(E, EnvsIte) : tv' = Vec(E, env, 0)
         \/ \E o \in {"add", "mul", "min", "fmod"}, l \in L3 :       \* selection nested below an operator
-              LET E == <<o, <<"ite", tv.a, X, <<"flt", 5, 1>> >>, l>> IN \E env \in EnvsOf(E, Envs2) : tv' = Vec(E, env, 0)
-        \/ \E T \in D1(L3) : T[1] \in {"add", "mul", "fmod", "pow", "sin"} /\     \* compound condition operand
-              LET E == <<"ite", <<tv.a[1], T, tv.a[3]>>, tv.a[2], <<"rat", -7, 3>> >> IN \E env \in EnvsOf(E, Envs2) : tv' = Vec(E, env, 0)
+              LET E == <<o, <<"ite", tv.a, X, <<"flt", 5, 1>> >>, l>> IN \E env \in EnvsOf(E, EnvsIte) : tv' = Vec(E, env, 0)
+        \/ /\ tv.a[2] = X                                           \* compound condition operand
+           /\ \E T \in D1(L3) : T[1] \in {"add", "fmod", "pow"} /\
+              LET E == <<"ite", <<tv.a[1], T, tv.a[3]>>, tv.a[2], <<"rat", -7, 3>> >> IN \E env \in EnvsOf(E, EnvsIte) : tv' = Vec(E, env, 0)
   \/ /\ tv.form = "call"
      /\ \/ \E a \in L1 \cup D1(L3) : LET E == <<"call", tv.a, a>> IN \E env \in EnvsOf(E, Envs2) : tv' = Vec(E, env, tv.b)
         \/ \E k2 \in 1..tv.b, o \in {"add", "mul", "sub"} :          \* two table entries in one expression
